@@ -20,21 +20,22 @@ type cfg struct {
 	LogN     int // ring degree of the bootstrapping parameters
 	LogSlots int // LogSlots of the bootstrapping literal (1..LogN-1)
 
-	Dense    bool // main secret dense (H = N/2 of the ring it lives in) instead of sparse
-	NoEncaps bool // EphemeralSecretWeight = 0
-	Residual int  // 0: same ring, 1: standard ring of degree N/2 (ring-degree switch), 2: conjugate-invariant ring of degree N/2, 3: standard ring N/4
-	Batch    int  // number of ciphertexts handed to BootstrapMany minus one (0..3)
-	CtGap    int  // ciphertext LogSlots = min(LogSlots, residual max) - CtGap (sparser input than the literal's LogSlots)
-	Iter     int  // 0: one bootstrap, 1: one extra iteration {20} without reserved prime, 2: {20} with a reserved prime, 3: two extra iterations {20,20} with a reserved prime
-	Mod1     int  // 0: CosDiscrete, 1: SinContinuous, 2: CosContinuous
-	DblAngle int  // 0: library default (3; 0 for Sin), k>0: DoubleAngle = k-1
-	ArcSine  int  // 0: off, 1: Mod1InvDegree=5, 2: Mod1InvDegree=7
-	C2S      int  // index into c2sSplits
-	S2C      int  // index into s2cSplits
-	InLevel  int  // input level (0..2); 2 uses a three-prime residual chain
-	Small    bool // message magnitude 2^-8 instead of ~1
-	Copy     bool // bootstrap with a ShallowCopy of an evaluator that has already been used
-	Q0       int  // first residual prime: 0: 60 bits (= the EvalMod scale: ModUp has nothing to scale), 1: 55 bits, 2: 50 bits (ModUp multiplies by round(2^60/Q[0]) = 32 / 1024)
+	Dense     bool // main secret dense (H = N/2 of the ring it lives in) instead of sparse
+	NoEncaps  bool // EphemeralSecretWeight = 0
+	Residual  int  // 0: same ring, 1: standard ring of degree N/2 (ring-degree switch), 2: conjugate-invariant ring of degree N/2, 3: standard ring N/4
+	Batch     int  // number of ciphertexts handed to BootstrapMany minus one (0..3)
+	CtGap     int  // ciphertext LogSlots = min(LogSlots, residual max) - CtGap (sparser input than the literal's LogSlots)
+	Iter      int  // 0: one bootstrap, 1: one extra iteration {20} without reserved prime, 2: {20} with a reserved prime, 3: two extra iterations {20,20} with a reserved prime
+	Mod1      int  // 0: CosDiscrete, 1: SinContinuous, 2: CosContinuous
+	DblAngle  int  // 0: library default (3; 0 for Sin), k>0: DoubleAngle = k-1
+	ArcSine   int  // 0: off, 1: Mod1InvDegree=5, 2: Mod1InvDegree=7
+	C2S       int  // index into c2sSplits
+	S2C       int  // index into s2cSplits
+	InLevel   int  // input level (0..2); 2 uses a three-prime residual chain
+	Small     bool // message magnitude 2^-8 instead of ~1
+	Copy      bool // bootstrap with a ShallowCopy of an evaluator that has already been used
+	Announced bool // keys built by the harness from the announced lists (announced.go) instead of GenEvaluationKeys; not part of key(): same calibration entry
+	Q0        int  // first residual prime: 0: 60 bits (= the EvalMod scale: ModUp has nothing to scale), 1: 55 bits, 2: 50 bits (ModUp multiplies by round(2^60/Q[0]) = 32 / 1024)
 }
 
 // mainH is the Hamming weight of the sparse main secret. It differs from the ephemeral weight (32) so that
